@@ -192,5 +192,56 @@ def post_explore(ctx, res, pids, opts):
                             ctx.report("C13", "step_disagrees_with_generative_step:" + "+".join(problems), key=key,
                                        detail={"action_index": a_idx, "action": str(action), "draw_side": side,
                                                "differs": problems})
+    # ------------------------------------------------------------------ C13: step() after a REAL history vs
+    # generative_step() of a pristine environment on the same state (the result of a step must be a function
+    # of state, action and draw only - not of how the environment object got there)
+    if want_agree:
+        env2 = nasim_env_cls(ctx.scenario, fully_obs=False, flat_actions=True, flat_obs=True)
+        env2.reset()
+        chosen = [i for i in range(len(keys)) if i < 40 or i % 10 == 0]
+        for i in chosen:
+            s, key = order[i], keys[i]
+            hist = ctx.history_of(key)
+            if not hist:
+                continue
+            for a_idx, action in enumerate(ctx.actions):
+                mact = ctx.mactions[a_idx]
+                if mact is None or mact["type"] == "noop":
+                    continue
+                dv = draw_values(mact["prob"])
+                for side in ("below", "above"):
+                    env.reset()
+                    for h_idx, h_side in hist:
+                        seam.arm(draw_values(ctx.mactions[h_idx]["prob"])[h_side])
+                        env.step(ctx.actions[h_idx])
+                    if env.current_state.tensor.tobytes() != key:
+                        raise HarnessError(f"{ctx.name}: BFS history replayed through step() does not reach its state")
+                    seam.arm(dv[side])
+                    o, r, done, trunc, info = env.step(action)
+                    seam.arm(dv[side])
+                    s2, gobs, gr, gdone, ginfo = env2.generative_step(s, action)
+                    counts["steps"] += 1 + len(hist)
+                    problems = []
+                    if np.asarray(o).tobytes() != np.asarray(gobs.numpy_flat()).tobytes():
+                        problems.append("observation")
+                    if float(r) != float(gr):
+                        problems.append("reward")
+                    if bool(done) != bool(gdone):
+                        problems.append("terminal")
+                    if _info_canon(info) != _info_canon(ginfo):
+                        problems.append("info")
+                    if env.current_state.tensor.tobytes() != s2.tensor.tobytes():
+                        problems.append("next_state")
+                    if problems:
+                        ctx.report("C13", "step_after_real_history_disagrees_with_generative_step_on_the_same_state:"
+                                   + "+".join(problems), key=key,
+                                   detail={"action_index": a_idx, "action": str(action), "draw_side": side,
+                                           "differs": problems,
+                                           "note": "step(): reset + recorded history + action on one environment; "
+                                                   "generative_step(): same state object handed to a freshly reset environment"})
+                        break
+                else:
+                    continue
+                break
     env.reset()
     return counts
